@@ -241,6 +241,25 @@ class PageRenderer:
             # For now, we assume header text matches the current page columns.
             pass
 
+            # A header that carries one width per ORIGINAL column (inherited from
+            # the body) loses the widths of the columns page_by/subline_by removed.
+            if (
+                is_single_body(document.rtf_body)
+                and isinstance(document.df, pl.DataFrame)
+                and isinstance(page.data, pl.DataFrame)
+                and header_copy.col_rel_width is not None
+                and len(header_copy.col_rel_width) == document.df.width
+                and page.data.width < document.df.width
+            ):
+                kept = set(page.data.columns)
+                header_copy.col_rel_width = [
+                    w
+                    for w, name in zip(
+                        header_copy.col_rel_width, document.df.columns, strict=True
+                    )
+                    if name in kept
+                ]
+
             # Apply top border for first page/first header
             if (
                 page.is_first_page
